@@ -172,6 +172,15 @@ class C20(HistoryCampaign):
             "non-trivial = at least one bare trial executed")
     assumptions = ["the bare objects' own internals are invisible to the log (only accesses from outside are recorded)"]
 
+    def on_build_exception(self, sc, info, res):
+        if "add_move" in info["text"] and any(e["move"]["type"] == "bare" or e.get("criteria") == "bare" for e in sc["moves"]):
+            from simkit.core import Violation
+
+            res.violations.append(Violation("C20", "driver_refuses_user_object",
+                                            f"type={info['type']}|where={info['where']}|driver={sc['driver']}", info["text"], "build"))
+            return True
+        return False
+
     def generate(self, rnd, tier, index):
         if rnd.random() < 0.2:
             cell = gen.gen_cell(rnd)
@@ -187,12 +196,13 @@ class C20(HistoryCampaign):
                 sc["moves"] = []  # bare moves alone
         drv = sc["driver"]
         equality = rnd.choice(["plain", "plain", "plain", "eq_unhashable", "eq_hash"])
+        truths = [None, None, None, "len0", "boolfalse"]
         for j in range(rnd.randint(1, 2)):
             kinds = ["disp", "noop"] + (["cell", "cell"] if drv in ("Isobaric", "Isotension") else [])
-            sc["moves"].append({"name": f"bare{j}", "criteria": "bare",
+            sc["moves"].append({"name": f"bare{j}", "criteria": "bare", "criteria_truth": rnd.choice(truths),
                                 "verdicts": [rnd.choice([True, True, False, None, 0, 1, "", "x"]) for _ in range(rnd.randint(1, 6))],
                                 "probability": gen.rfloat(rnd, 0.5, 3.0, 2),
-                                "move": {"type": "bare", "kind": rnd.choice(kinds), "equality": equality,
+                                "move": {"type": "bare", "kind": rnd.choice(kinds), "equality": equality, "truth": rnd.choice(truths),
                                          "step": gen.logu(rnd, 0.01, 0.2) if rnd.random() < 0.6 else gen.logu(rnd, 1e-10, 1e-3),
                                          "results": [rnd.choice(RESULTS) for _ in range(rnd.randint(1, 6))]}})
         if drv in ("Isobaric", "Isotension") and rnd.random() < 0.4:
@@ -209,6 +219,7 @@ class C20(HistoryCampaign):
             for e in sc["moves"]:
                 if e["move"]["type"] in ("disp", "cell") and "criteria" not in e:
                     e["criteria"] = "bare"
+                    e["criteria_truth"] = rnd.choice(truths)
                     e["verdicts"] = [rnd.random() < 0.5 for _ in range(4)]
                     break
         if rnd.random() < 0.3 and drv != "MonteCarlo":
